@@ -425,6 +425,12 @@ func (g *gen) deviantPayload(tlvType uint16, value []byte) ([]byte, string) {
 	if !ok || len(mpis) == 0 {
 		return nil, ""
 	}
+	if f := g.forcePlusQ; f != nil && f[1] < len(mpis) {
+		// a proof exponent increased by the group order: every zero-knowledge equation still holds (g^(d+q) = g^d in the
+		// subgroup), only the range check 1 <= d < q tells it from an honest one
+		mpis[f[1]] = new(big.Int).Add(mpis[f[1]], bigQ)
+		return append(question, otr3.AppendMPIs(otr3.AppendWord(nil, uint32(len(mpis))), mpis...)...), fmt.Sprintf("field%d=+q", f[1])
+	}
 	if tlvType == 3 && len(mpis) == 11 && (g.forceDegenerate || g.r.Intn(3) == 0) {
 		// SMP message 2 whose Pb and Qb are the same non-trivial multiple of p: every term of the
 		// proof that contains them collapses to zero, so cP = H(5, 0, 0) "proves" it for any D5, D6;
@@ -481,6 +487,9 @@ func (g *gen) smpDeviant(w *world) {
 	if g.forceDegenerate {
 		target = 3
 	}
+	if g.forcePlusQ != nil {
+		target = g.forcePlusQ[0]
+	}
 	q := []string{"", "q?"}[g.r.Intn(2)]
 	done := false
 	disconnectFirst := false
@@ -501,7 +510,7 @@ func (g *gen) smpDeviant(w *world) {
 				if to == n.a {
 					from = n.b
 				}
-				if !g.forceDegenerate && g.r.Intn(6) == 0 {
+				if !g.forceDegenerate && g.forcePlusQ == nil && g.r.Intn(6) == 0 {
 					// the genuine SMP TLV, but behind a disconnect TLV in the same message: the session
 					// ends, whatever comes after it must not crash the receiver
 					done = true
@@ -1680,6 +1689,16 @@ func init() {
 		so := g.r.Intn(4)
 		for i := 0; i < (n+9)/10; i++ {
 			g.smpSecretless(w, i, so)
+		}
+		// appended: every proof exponent of every SMP message increased by the group order q, one at a time (the
+		// zero-knowledge equations still hold; the protocol demands 1 <= d < q): never success
+		plusQ := [][2]int{{2, 2}, {2, 5}, {3, 2}, {3, 5}, {3, 9}, {3, 10}, {4, 3}, {4, 4}, {4, 7}, {5, 2}}
+		po := g.r.Intn(len(plusQ))
+		for i := 0; i < 2+n/20 && i < len(plusQ); i++ {
+			f := plusQ[(po+i)%len(plusQ)]
+			g.forcePlusQ = &f
+			g.smpDeviant(w)
+			g.forcePlusQ = nil
 		}
 		extra["panics"] = panicCount
 		olog.export(extra)
